@@ -64,6 +64,7 @@ var Literals = map[string]Literal{
 	"lp":   {`["p", "q"]`, `["p", "q"]`, cty.TupleVal([]cty.Value{cty.StringVal("p"), cty.StringVal("q")})},
 	"lm":   {`["p", 1]`, `["p", 1]`, cty.TupleVal([]cty.Value{cty.StringVal("p"), cty.NumberIntVal(1)})},
 	"oe":   {`{}`, `{}`, cty.EmptyObjectVal},
+	"lo":   {`[{ k = 1 }]`, `[{"k": 1}]`, cty.TupleVal([]cty.Value{cty.ObjectVal(map[string]cty.Value{"k": cty.NumberIntVal(1)})})},
 	"o2":   {`{ k1 = "v1", k2 = "v2" }`, `{"k1": "v1", "k2": "v2"}`, cty.ObjectVal(map[string]cty.Value{"k1": cty.StringVal("v1"), "k2": cty.StringVal("v2")})},
 }
 
@@ -450,6 +451,8 @@ const (
 	TMapNum  = `["map","number"]`
 	// object type with one optional attribute
 	TObject = `["object",{"k":"number","o":"string"},["o"]]`
+	// the optional attribute one level down in the type
+	TListObjOpt = `["list",["object",{"k":"number","o":"string"},["o"]]]`
 )
 
 // Sample builds a known, non-null value of the given type (which must not
